@@ -201,10 +201,12 @@ fn eval_prefix(prefixes: &BTreeMap<String, Numeric>, expr: &Expr) -> Result<Nume
         }) => {
             let left = eval_prefix(prefixes, &*left)?;
             let right = eval_prefix(prefixes, &*right)?;
+            // `to_int` would truncate `10^0.5` to 10^0
             let right: i32 = right
-                .to_int()
+                .as_bigint()
+                .and_then(|value| value.as_int())
                 .and_then(|value| value.try_into().ok())
-                .ok_or_else(|| "Exponent is too big".to_string())?;
+                .ok_or_else(|| "Exponent is not an integer, or too big".to_string())?;
             if right < 0 && (left == Numeric::zero() || left == Numeric::Float(0.0)) {
                 return Err("Division by zero".to_string());
             }
@@ -278,9 +280,11 @@ fn eval_quantity(
             let left = eval_quantity(base_units, quantities, &*left)?;
             match **right {
                 Expr::Const { ref value } => {
+                    // `to_int` would truncate `length^2.5` to length^2
                     let value = value
-                        .to_int()
-                        .ok_or_else(|| "RHS of `^` is too big".to_string())?;
+                        .as_bigint()
+                        .and_then(|value| value.as_int())
+                        .ok_or_else(|| "RHS of `^` is not an integer, or too big".to_string())?;
                     quantity_pow(left, value)
                 }
                 Expr::UnaryOp(UnaryOpExpr {
@@ -289,8 +293,9 @@ fn eval_quantity(
                 }) => {
                     if let Expr::Const { ref value } = **expr {
                         let value = -value
-                            .to_int()
-                            .ok_or_else(|| "RHS of `^` is too big".to_string())?;
+                            .as_bigint()
+                            .and_then(|value| value.as_int())
+                            .ok_or_else(|| "RHS of `^` is not an integer, or too big".to_string())?;
                         quantity_pow(left, value)
                     } else {
                         Err(format!("RHS of `^` must be a constant: {expr}"))
